@@ -33,6 +33,9 @@ def shards(tier, seed):
 	for ui, U in enumerate(universes):
 		widths = WIDTHS if max(U) < 65536 else (['u4', 'u8', 'i8'] if max(U) < 2 ** 32 else ['u8', 'i8'])
 		out.append(dict(name=f'exh-U{ui}', kind='exh', U=U, widths=widths))
+	# mixed widths where the wider signature holds values the narrower type cannot represent (value + 2^16 / 2^32 "twins")
+	out.append(dict(name='mixed-16', kind='mixed', low=[0, 1, 5, 65535], shift=65536, narrow=['u2', 'i4' if False else 'u2'], wide=['u4', 'u8', 'i4', 'i8']))
+	out.append(dict(name='mixed-32', kind='mixed', low=[0, 3, 65536, 2 ** 32 - 1], shift=2 ** 32, narrow=['u4'], wide=['u8', 'i8']))
 	n = 6 if tier == 'quick' else 32
 	for i in range(n):
 		out.append(dict(name=f'rand-{i}', kind='rand', sub=i, n=250 if tier == 'quick' else 1500, maxsize=3000 if tier == 'quick' else 10000))
@@ -61,8 +64,41 @@ def check_pair_props(ctx, A, B, dab, dba, w):
 		ctx.violation('disjointness', f'd={dab!r} but "disjoint and not both empty" is {disj}', w)
 
 
+def run_mixed(sh, ctx, gm):
+	"""All pairs (A wide, B narrow): A ranges over subsets of low + (low+shift), B over subsets of low. Every pair property + exact value,
+	both argument orders. A twin x+shift must never be confused with x."""
+	low = sh['low']
+	high = [x + sh['shift'] for x in low]
+	UA = low + high
+	subsA = [frozenset(c) for r in range(len(UA) + 1) for c in itertools.combinations(UA, r)]
+	subsB = [frozenset(c) for r in range(len(low) + 1) for c in itertools.combinations(low, r)]
+	ctx.notes.setdefault('exhaustive_scopes', []).append(f'all subsets of {UA} (wide types {sh["wide"]}) x all subsets of {low} (narrow types {sh["narrow"]})')
+	for wa in sh['wide']:
+		for wb in set(sh['narrow']):
+			if any(x > M.maxval(wa) for x in UA):
+				continue
+			for A in subsA:
+				a = M.arr(A, wa)
+				for B in subsB:
+					b = M.arr(B, wb)
+					dab, dba = _d(gm, a, b), _d(gm, b, a)
+					w = dict(A=sorted(A), B=sorted(B), widths=[wa, wb])
+					ctx.case(('mixed', wa, wb, sorted(A), sorted(B)), nontrivial=A != B)
+					ctx.count('mixed_width_pairs_with_unrepresentable_values' if any(x > M.maxval(wb) for x in A) else 'mixed_width_pairs')
+					check_pair_props(ctx, A, B, dab, dba, w)
+					s, u = J.dist_su(A, B)
+					if J.bits(dab) != J.expected_bits(s, u):
+						ctx.violation('value', f'd={dab!r} for s/u={s}/{u} (widths {wa}/{wb})', w)
+					# storing the narrow signature in the wide type must not change anything
+					d2 = _d(gm, a, b.astype(wa))
+					if J.bits(d2) != J.bits(dab):
+						ctx.violation('width-dependent', f'd={dab!r} with B as {wb}, {d2!r} with B stored as {wa}', w)
+
+
 def run_shard(sh, ctx):
 	import gambit.metric as gm
+	if sh['kind'] == 'mixed':
+		return run_mixed(sh, ctx, gm)
 	if sh['kind'] == 'exh':
 		U = sh['U']
 		subsets = [frozenset(c) for r in range(len(U) + 1) for c in itertools.combinations(U, r)]
@@ -181,7 +217,7 @@ def run_shard(sh, ctx):
 
 def finalize(merged, tier, seed, inconclusive):
 	c = merged['counters']
-	for n in ['triples_checked', 'add_common_element_checks', 'width_invariance_checks', 'class:union', 'class:near', 'width_combo:u2/u8', 'width_combo:u8/u2']:
+	for n in ['triples_checked', 'add_common_element_checks', 'width_invariance_checks', 'class:union', 'class:near', 'width_combo:u2/u8', 'width_combo:u8/u2', 'mixed_width_pairs_with_unrepresentable_values']:
 		if c.get(n, 0) == 0:
 			inconclusive.append(f'class never observed: {n}')
 	merged['notes'].setdefault('sanitizer_stage', {})
